@@ -206,7 +206,7 @@ def check(ctx):
                    function=D.a["func"], construct="%s/handler-arg" % D.a["func"],
                    msg="handlers called with %s" % [[show(y) for y in x.a["args"]] for x in inner_calls])
     ctx.count("dispatching_iterations", n_disp)
-    ctx.floor("dispatching iteration paths", n_disp, 100)
+    ctx.floor("dispatching iteration paths", n_disp, 10)
 
 
 def offset_idiom(ctx, cls, cq, prog, p0, ent, outer, B, carry, framer_q, framer, cont, off_terms):
